@@ -34,6 +34,8 @@ struct CtlState {
 	started: u64,
 	ndec: u64,
 	nseek: u64,
+	/// decode calls made when the stream had already been delivered completely
+	neos: u64,
 	dropped: bool,
 	dropped_on_other_thread: bool,
 	first_err: Option<i128>,
@@ -140,13 +142,30 @@ struct Script {
 	lp: Option<(usize, usize)>,
 	/// busy-wait this long in every decode call (not part of the model: used by the free-running probe only)
 	slow_ns: u64,
+	/// (not in the model) the sound's region `StreamingSoundData::slice`, in frames of the decoder's audio; it may reach
+	/// beyond the audio, be empty or inverted
+	slice: Option<(usize, usize)>,
+	/// the slice is given through the `.slice(region)` builder instead of the public field
+	slice_via_builder: bool,
+	/// (not in the model) the decoder answers a call at end-of-stream with an empty packet instead of error 999
+	eos_empty: bool,
+	/// the scenario, by construction, gives the decoder every call it needs and plays beyond the end of the sound's
+	/// region with no loop, seek, pause or stop: the sound must have finished by the end
+	must_finish: bool,
 }
 impl Script {
 	fn plain(packets: Vec<usize>) -> Script {
-		Script { packets, gran: 1, dec_at: vec![], dec_from: 0, seek_at: vec![], seek_from: 0, start: 0, lp: None, slow_ns: 0 }
+		Script { packets, gran: 1, dec_at: vec![], dec_from: 0, seek_at: vec![], seek_from: 0, start: 0, lp: None, slow_ns: 0, slice: None, slice_via_builder: false, eos_empty: false, must_finish: false }
 	}
 	fn n(&self) -> usize {
 		self.packets.iter().sum()
+	}
+	/// (first source frame, number of frames) of the sound: the slice fitted to the audio that exists
+	fn region(&self) -> (usize, usize) {
+		match self.slice {
+			Some((a, b)) => (a, b.min(self.n()).saturating_sub(a)),
+			None => (0, self.n()),
+		}
 	}
 	fn term(&self) -> String {
 		let l = |v: &Vec<u64>| v.iter().map(|x| x.to_string()).collect::<Vec<_>>().join("; ");
@@ -212,6 +231,10 @@ impl Decoder for ScriptDecoder {
 			return Err(self.fail(1000 + call as i128));
 		}
 		if self.cursor >= self.sc.packets.len() {
+			self.ctl.m.lock().unwrap().neos += 1;
+			if self.sc.eos_empty {
+				return Ok(vec![]);
+			}
 			return Err(self.fail(999));
 		}
 		if self.sc.slow_ns > 0 {
@@ -308,7 +331,7 @@ struct Scenario {
 impl Scenario {
 	/// does the scenario use something the model has no notion of (a clock)?
 	fn beyond_model(&self) -> bool {
-		self.clock_start.is_some() || self.evs.iter().any(|e| matches!(e, Ev::ResumeAtClock(..) | Ev::ClockStart))
+		self.script.slice.is_some() || self.script.eos_empty || self.clock_start.is_some() || self.evs.iter().any(|e| matches!(e, Ev::ResumeAtClock(..) | Ev::ClockStart))
 	}
 }
 
@@ -395,6 +418,10 @@ struct Trace {
 	pop_due: Vec<(usize, bool)>,
 	/// (event number, what) for the non-model part of a scenario (clock start time, resume_at)
 	extra: Vec<String>,
+	/// decode calls made after the whole stream had been delivered
+	eos_calls: u64,
+	/// `num_frames()` of the data object before it was played
+	data_num_frames: Option<usize>,
 }
 
 /// free mode: wait until the thread is quiescent and classify: 1 ended, 0 asleep/blocked, 2 spinning
@@ -460,7 +487,25 @@ fn run_scenario(sc: &Scenario) -> Trace {
 		if let Some((a, b)) = sc.script.lp {
 			data = data.loop_region(Region { start: PlaybackPosition::Samples(a), end: kira::sound::EndPosition::Custom(PlaybackPosition::Samples(b)) });
 		}
-		let mut clock = if sc.beyond_model() { Some(mgr.add_clock(ClockSpeed::TicksPerSecond(SR as f64)).unwrap()) } else { None };
+		if let Some((a, b)) = sc.script.slice {
+			if sc.script.slice_via_builder {
+				data = data.slice(Region { start: PlaybackPosition::Samples(a), end: kira::sound::EndPosition::Custom(PlaybackPosition::Samples(b)) });
+			} else {
+				data.slice = Some((a, b));
+			}
+			t.data_num_frames = Some(data.num_frames());
+			t.extra.push(format!(
+				"slice = Some(({a}, {b})) given through {} on {} frames of audio (the sound is source frames [{}, {})); at end-of-stream decode() returns {}",
+				if sc.script.slice_via_builder { "the .slice(region) builder" } else { "the public field StreamingSoundData::slice" },
+				sc.script.n(),
+				sc.script.region().0,
+				sc.script.region().0 + sc.script.region().1,
+				if sc.script.eos_empty { "an empty packet" } else { "error 999" }
+			));
+		} else if sc.script.eos_empty {
+			t.extra.push("at end-of-stream decode() returns an empty packet".into());
+		}
+		let mut clock = if sc.clock_start.is_some() || sc.evs.iter().any(|e| matches!(e, Ev::ResumeAtClock(..) | Ev::ClockStart)) { Some(mgr.add_clock(ClockSpeed::TicksPerSecond(SR as f64)).unwrap()) } else { None };
 		if let (Some(ticks), Some(c)) = (sc.clock_start, clock.as_ref()) {
 			data = data.start_time(c.time() + ticks);
 			t.extra.push(format!("start_time = clock.time() + {ticks} (clock stopped, one tick per frame)"));
@@ -717,7 +762,7 @@ fn run_scenario(sc: &Scenario) -> Trace {
 		// the end: let the thread run freely and see whether it ends (bounded time)
 		if !t.never_spawned {
 			ctl.set_free();
-			t.expect_end = t.final_state == Some(6) || t.sound_dropped || ctl.m.lock().unwrap().first_err.is_some();
+			t.expect_end = t.final_state == Some(6) || t.sound_dropped || ctl.m.lock().unwrap().first_err.is_some() || sc.script.must_finish;
 			t.lingering = t.in_limbo || t.limbo_pending;
 			if t.expect_end {
 				t.ended_in_time = ctl.wait_dropped(Duration::from_millis(if t.lingering { 300 } else { 3000 }));
@@ -731,6 +776,7 @@ fn run_scenario(sc: &Scenario) -> Trace {
 			let g = ctl.m.lock().unwrap();
 			t.first_err = g.first_err;
 			t.errs = g.errs.clone();
+			t.eos_calls = g.neos;
 		}
 		ctl.kill();
 		drop(handle);
@@ -758,13 +804,13 @@ fn term(sc: &Scenario, tr: &Trace) -> String {
 // ------------------------------------------------------------------------------------------------
 fn transport_order(sc: &Script, limit: usize) -> Vec<i128> {
 	// positions pushed by the scheduler when no seek command is given
-	let n = sc.n();
+	let (off, n) = sc.region();
 	let lp = sc.lp.filter(|(a, b)| b > a);
 	let mut pos = sc.start;
 	let mut v = vec![];
 	let mut playing = true;
 	while v.len() < limit {
-		v.push(if pos < n { pos as i128 } else { -1 });
+		v.push(if pos < n { (off + pos) as i128 } else { -1 });
 		if !playing {
 			break;
 		}
@@ -923,6 +969,8 @@ fn monitors(s: &mut Session, desc: &str, sc: &Scenario, tr: &Trace) {
 						"the sound {} but its decoder thread did not end (decoder not dropped within 3 s)",
 						if tr.rejected {
 							"was rejected by a full track"
+						} else if sc.script.must_finish && tr.final_state != Some(6) && !tr.sound_dropped {
+							"was played beyond the end of its region"
 						} else if tr.sound_dropped {
 							"was dropped with its track/manager"
 						} else if tr.final_state == Some(6) {
@@ -943,13 +991,68 @@ fn monitors(s: &mut Session, desc: &str, sc: &Scenario, tr: &Trace) {
 			s.fail(
 				desc.to_string(),
 				format!(
-					"event {k}: decoder thread busy-spins after a decoder error ({window} decoder calls in 50 ms, first error {:?}, parent track {})",
+					"event {k}: decoder thread busy-spins {} ({window} decoder calls in 50 ms, first error {:?}, {} decode calls beyond the end of the stream, parent track {})",
+					if tr.first_err.is_some() { "after a decoder error" } else { "although it has nothing to do" },
 					tr.first_err,
-					if paused { "paused" } else { "not yet processed" }
+					tr.eos_calls,
+					if paused { "paused" } else if tr.first_err.is_some() { "not yet processed" } else { "live" }
 				),
 				None,
 			);
 		}
+	}
+	// --- a sound whose region (slice) is shorter than, reaches beyond, or lies outside the audio
+	let has_cmd = sc.evs.iter().any(|e| matches!(e, Ev::SeekTo(_) | Ev::Pause(_) | Ev::Stop(_) | Ev::TrackPause | Ev::ResumeAtClock(..)));
+	let (off, len) = sc.script.region();
+	if let Some(nf) = tr.data_num_frames {
+		if nf != len {
+			s.fail(desc.to_string(), format!("StreamingSoundData::num_frames() = {nf}, but the slice covers {len} frames of the audio"), None);
+		}
+	}
+	if sc.script.must_finish && !has_cmd && sc.script.lp.is_none() && !tr.never_spawned && !tr.rejected {
+		// "once the sound has finished": all the audio of the region was played (the callbacks went beyond its end and the
+		// decoder was given every call it needed), so the sound is Stopped and unloaded, without an error
+		if !tr.handle_dropped && !tr.sound_dropped {
+			if tr.final_state != Some(6) {
+				s.fail(
+					desc.to_string(),
+					format!(
+						"the callbacks played {} frames, beyond the end of the sound (source frames [{off}, {}), start position {}), and the decoder was allowed every call, but the sound never finished: final state {:?} (0 = Playing), {} decode calls beyond the end of the stream",
+						tr.outs.len(),
+						off + len,
+						sc.script.start,
+						tr.final_state,
+						tr.eos_calls
+					),
+					None,
+				);
+			} else if let Some((k, _, loaded)) = tr.states.last() {
+				if *loaded != 0 {
+					s.fail(desc.to_string(), format!("event {k}: the sound finished but still occupies a slot of its track"), None);
+				}
+			}
+		}
+		// nothing outside the region is ever heard
+		if len > 0 {
+			let last = tr.outs.iter().filter(|(i, _)| *i >= 0).map(|(i, _)| *i).max();
+			if last.map_or(false, |l| l >= (off + len) as i128) {
+				s.fail(desc.to_string(), format!("heard source frame {:?}, which lies outside the sound's region [{off}, {})", last, off + len), None);
+			}
+		}
+	}
+	// the thread has nothing to do once the decoder has delivered the whole stream: asking it again and again for audio
+	// that does not exist is a busy spin (paced scenarios: every permit is answered by another such call)
+	if !sc.evs.iter().any(|e| matches!(e, Ev::SeekTo(_))) && tr.eos_calls > 1 {
+		s.fail(
+			desc.to_string(),
+			format!(
+				"the decoder thread kept asking the decoder for audio beyond the end of the stream ({} decode calls after all {} frames had been delivered; the sound's region ends at source frame {})",
+				tr.eos_calls,
+				sc.script.n(),
+				off + len
+			),
+			None,
+		);
 	}
 }
 
@@ -1038,6 +1141,10 @@ pub fn run(args: &Args) {
 
 	// ---- 0. fixed corpus (no random draws): the decoder fails while the sound is NOT advancing ---------
 	not_advancing_corpus(&mut s);
+	// ---- 0b. fixed corpus: sounds whose region (slice) reaches beyond / lies outside the audio ----------
+	slice_corpus(&mut s);
+	// ---- 0c. fixed corpus: files that end before the length their header announces (symphonia decoder) ----
+	truncated_file_corpus(&mut s);
 
 	// ---- 1. faults at the k-th decode / seek call, exhaustively for short streams -------------------
 	for npk in 1..=(if args.thorough { 12 } else { 6 }) {
@@ -1286,6 +1393,14 @@ pub fn run(args: &Args) {
 		submit(&mut s, ["error_while_paused", "error_while_paused", "error_while_waiting_to_resume", "error_before_start_time"][mode], &sc);
 	}
 
+	// ---- 3c. random regions (slices) over random packetisations ----------------------------------------
+	slice_scenarios(&mut s, &mut r, mul);
+	for _ in 0..(3 * mul) {
+		let promised = r.range(1, 5000) as usize;
+		let present = if r.chance(1, 5) { promised } else { r.below(promised as u64) as usize };
+		truncated_file(&mut s, promised, present, *r.pick(&[16usize, 64, 128]));
+	}
+
 	// ---- 4. free-running: thread end, abandoned sounds, errors ----------------------------------------
 	free_scenarios(&mut s, &mut r, mul);
 
@@ -1361,6 +1476,294 @@ fn not_advancing_corpus(s: &mut Session) {
 		let mut evs = vec![Ev::Permit, Ev::Permit, Ev::Cb(1), Ev::Pause(6), Ev::Cb(2), Ev::ObsH, Ev::Permit];
 		tail(&mut evs, None);
 		submit(s, "error_while_paused", &mk(script, ibs, None, evs));
+	}
+}
+
+/// one scenario over a sliced sound.  `mode`: 0 paced, played to the end; 1 free-running, played to the end;
+/// 2 paced, stopped after the decoder has run to the end of the audio; 3 paced, manager dropped at that point;
+/// 4 free-running, stopped after the end of the audio was reached by the decoder but not by playback
+fn slice_scenario(s: &mut Session, packets: Vec<usize>, slice: (usize, usize), via_builder: bool, eos_empty: bool, start: usize, ibs: usize, cb: usize, mode: usize) {
+	let mut script = Script::plain(packets.clone());
+	script.slice = Some(slice);
+	script.slice_via_builder = via_builder;
+	script.eos_empty = eos_empty;
+	script.start = start;
+	let (_, len) = script.region();
+	let npk = packets.len();
+	let cb = cb.max(1);
+	let mut evs = vec![];
+	let kind;
+	match mode {
+		0 => {
+			kind = "slice_paced_to_end";
+			script.must_finish = true;
+			let rounds = (len.saturating_sub(start) + 6) / cb + 2;
+			let per = (npk + 4) / rounds + 1;
+			for _ in 0..rounds {
+				for _ in 0..per {
+					evs.push(Ev::Permit);
+				}
+				evs.push(Ev::Cb(cb));
+				evs.push(Ev::ObsH);
+			}
+			evs.extend([Ev::Permit, Ev::Permit, Ev::Cb(cb), Ev::ObsH, Ev::ObsD, Ev::PopError, Ev::Cb(2), Ev::ObsH]);
+		}
+		1 => {
+			kind = "slice_free_to_end";
+			script.must_finish = true;
+			evs.extend([Ev::Cb(len.saturating_sub(start) / 2 + 1), Ev::ObsH, Ev::Cb(len + 4), Ev::ObsH, Ev::ObsF, Ev::Cb(2), Ev::ObsH, Ev::ObsD, Ev::PopError]);
+		}
+		2 | 3 => {
+			kind = if mode == 2 { "slice_stop_after_decoder_reached_end" } else { "slice_drop_manager_after_decoder_reached_end" };
+			evs.extend([Ev::Permit, Ev::Cb(1), Ev::ObsH]);
+			for _ in 0..(npk + 4) {
+				evs.push(Ev::Permit);
+			}
+			evs.push(Ev::ObsD);
+			evs.push(if mode == 2 { Ev::Stop(0) } else { Ev::DropManager });
+			evs.extend([Ev::Cb(2), Ev::ObsH, Ev::Permit, Ev::Permit, Ev::Cb(2), Ev::ObsH, Ev::ObsD]);
+		}
+		_ => {
+			kind = "slice_free_stop_after_decoder_reached_end";
+			evs.extend([Ev::Cb(1), Ev::ObsH, Ev::ObsF, Ev::Stop(0), Ev::Cb(2), Ev::ObsH, Ev::ObsF, Ev::ObsD]);
+		}
+	}
+	let free = mode == 1 || mode == 4;
+	submit(s, kind, &Scenario { free, script, ibs, reject: false, reject_cap0: false, start_paused: false, clock_start: None, evs });
+}
+
+/// Fixed corpus, run first on every run whatever the seed: a streaming sound whose `slice` (set through the public
+/// field, as an application that copies a region computed for another file, or an "open ended" `(start, usize::MAX)`,
+/// would) reaches beyond the audio, ends exactly at it, lies inside it, is empty, inverted or wholly outside.  The
+/// sound is the part of the region that exists: it plays those frames in order, finishes (Stopped, unloaded, no
+/// error), its thread ends and releases the decoder, and the thread never asks the decoder again and again for audio
+/// beyond the end of the stream - whether the decoder answers end-of-stream with an empty packet or with an error.
+/// Monitor only (the model has no slices).
+fn slice_corpus(s: &mut Session) {
+	let packets = vec![4usize, 4, 2]; // 10 frames
+	for eos_empty in [true, false] {
+		for (slice, start) in [
+			((2usize, 50usize), 0usize),
+			((0, usize::MAX), 0),
+			((3, 11), 0),
+			((2, 50), 3),
+			((0, 10), 0),
+			((2, 8), 0),
+			((2, 8), 7),
+			((9, 12), 0),
+			((10, 50), 0),
+			((12, 50), 0),
+			((7, 3), 0),
+			((5, 5), 0),
+		] {
+			for mode in 0..5 {
+				if mode >= 2 && !(slice.1 > 10 && slice.0 < 10) {
+					continue;
+				}
+				slice_scenario(s, packets.clone(), slice, false, eos_empty, start, if mode == 0 { 4 } else { 16 }, 3, mode);
+			}
+		}
+		// the same region given through the builder
+		slice_scenario(s, packets.clone(), (2, 50), true, eos_empty, 0, 4, 3, 0);
+		slice_scenario(s, packets.clone(), (2, 50), true, eos_empty, 0, 16, 3, 1);
+	}
+	// one-frame packets, an empty packet in mid-stream, one big packet
+	for pk in [vec![1usize; 6], vec![3, 0, 3], vec![6]] {
+		slice_scenario(s, pk.clone(), (1, 7), false, true, 0, 2, 2, 0);
+		slice_scenario(s, pk, (1, usize::MAX), false, true, 0, 2, 2, 2);
+	}
+}
+
+/// seeded: random packetisations, random regions around the end of the audio, random start positions
+fn slice_scenarios(s: &mut Session, r: &mut Rng, mul: usize) {
+	for k in 0..(16 * mul) {
+		let packets = gen_packets(r, 6);
+		let n: usize = packets.iter().sum();
+		let a = r.below(n as u64 + 2) as usize;
+		let b = match r.below(6) {
+			0 => usize::MAX,
+			1 => n + 1,
+			2 => n,
+			3 => r.below(n as u64 + 1) as usize,
+			_ => n + r.range(1, 40) as usize,
+		};
+		let start = if r.chance(1, 3) { r.below(n as u64 + 2) as usize } else { 0 };
+		let eos_empty = !r.chance(1, 4);
+		let via_builder = r.chance(1, 6);
+		let ibs = *r.pick(&[1usize, 2, 4, 16]);
+		let cb = r.range(1, 5) as usize;
+		let mode = if b > n && a < n { [0usize, 0, 2, 1, 3, 0, 4, 0][k % 8] } else { k % 2 };
+		slice_scenario(s, packets, (a, b), via_builder, eos_empty, start, ibs, cb, mode);
+	}
+}
+
+/// the bytes of a file; counts how often the decoder looks at them (`Cursor<T>` calls `as_ref` for every read), records
+/// their release, and parks a thread that still reads after the scenario is over (a leaked, spinning decoder thread)
+struct FileBytes {
+	bytes: Vec<u8>,
+	st: Arc<FileState>,
+}
+#[derive(Default)]
+struct FileState {
+	reads: std::sync::atomic::AtomicU64,
+	released: std::sync::atomic::AtomicBool,
+	kill: std::sync::atomic::AtomicBool,
+}
+impl AsRef<[u8]> for FileBytes {
+	fn as_ref(&self) -> &[u8] {
+		use std::sync::atomic::Ordering::SeqCst;
+		self.st.reads.fetch_add(1, SeqCst);
+		while self.st.kill.load(SeqCst) {
+			std::thread::park_timeout(Duration::from_secs(3600));
+		}
+		&self.bytes
+	}
+}
+impl Drop for FileBytes {
+	fn drop(&mut self) {
+		self.st.released.store(true, std::sync::atomic::Ordering::SeqCst);
+	}
+}
+
+/// A 16-bit mono PCM WAV file at `SR` Hz whose header is correct for `promised` frames but which holds `present` frames.
+fn wav_bytes(promised: usize, present: usize) -> Vec<u8> {
+	let data_len = (promised * 2) as u32;
+	let mut b = vec![];
+	b.extend_from_slice(b"RIFF");
+	b.extend_from_slice(&(36 + data_len).to_le_bytes());
+	b.extend_from_slice(b"WAVEfmt ");
+	b.extend_from_slice(&16u32.to_le_bytes());
+	b.extend_from_slice(&1u16.to_le_bytes());
+	b.extend_from_slice(&1u16.to_le_bytes());
+	b.extend_from_slice(&SR.to_le_bytes());
+	b.extend_from_slice(&(SR * 2).to_le_bytes());
+	b.extend_from_slice(&2u16.to_le_bytes());
+	b.extend_from_slice(&16u16.to_le_bytes());
+	b.extend_from_slice(b"data");
+	b.extend_from_slice(&data_len.to_le_bytes());
+	for i in 0..present {
+		let v = ((i % 63) as i16 + 1) * 256;
+		b.extend_from_slice(&v.to_le_bytes());
+	}
+	b
+}
+
+/// A file streamed through the library's own (symphonia) decoder whose data ends before the length its header
+/// announces (a download cut short; `present == promised` is the intact control).  Running out of data in mid-stream
+/// is a decode error: the thread ends by itself and releases the file, the sound becomes Stopped in the first callback
+/// that processes it afterwards, is unloaded one callback later, is silent from then on, and the error can be popped.
+/// Free-running (the real decoder cannot be paced), monitor only.
+fn truncated_file(s: &mut Session, promised: usize, present: usize, cb: usize) {
+	use std::sync::atomic::Ordering::SeqCst;
+	s.eval_only("truncated_file");
+	let desc = format!(
+		"truncated_file: 16-bit mono PCM WAV at {SR} Hz, header announces {promised} frames, {present} present, StreamingSoundData::from_cursor, free-running decoder thread, callbacks of {cb} frames (internal_buffer_size 64) until Stopped or {} frames played",
+		promised + 2 * cb
+	);
+	let st = Arc::new(FileState::default());
+	let st2 = st.clone();
+	let wait_released = |limit: Duration| {
+		let t0 = Instant::now();
+		while !st2.released.load(SeqCst) && t0.elapsed() < limit {
+			std::thread::sleep(Duration::from_millis(2));
+		}
+		st2.released.load(SeqCst)
+	};
+	let r = catch(|| {
+		let mut fails: Vec<String> = vec![];
+		let mut mgr = manager(SR, 64, Capacities::default(), MainTrackBuilder::new());
+		let mut track = mgr.add_sub_track(TrackBuilder::new()).unwrap();
+		mgr.backend_mut().callback_stereo(1);
+		let data = match StreamingSoundData::from_cursor(std::io::Cursor::new(FileBytes { bytes: wav_bytes(promised, present), st: st.clone() })) {
+			Ok(d) => d,
+			Err(_) => return (fails, true), // the file was refused when it was opened: nothing to stream
+		};
+		let mut h = match track.play(data) {
+			Ok(h) => h,
+			Err(_) => return (fails, true),
+		};
+		let truncated = present < promised;
+		// the thread decodes ahead (the ring holds 16384 frames): it runs into the end of the data by itself
+		// (an intact file shorter than the ring is decoded to its end, which ends the thread too)
+		let released_by_itself = wait_released(Duration::from_secs(3));
+		let mut spin = 0;
+		if !released_by_itself {
+			let a = st.reads.load(SeqCst);
+			std::thread::sleep(Duration::from_millis(50));
+			spin = st.reads.load(SeqCst) - a;
+		}
+		let mut played = 0;
+		let mut cbs = 0;
+		let mut stopped_cb: Option<usize> = None;
+		let mut audio_after_stop = false;
+		while played < promised + 2 * cb {
+			let out = mgr.backend_mut().callback_stereo(cb);
+			played += cb;
+			cbs += 1;
+			if stopped_cb.is_some() && out.iter().any(|f| f.left != 0.0 || f.right != 0.0) {
+				audio_after_stop = true;
+			}
+			if stopped_cb.is_none() && h.state() == PlaybackState::Stopped {
+				stopped_cb = Some(cbs);
+			}
+			if stopped_cb.map_or(false, |c| cbs >= c + 2) {
+				break;
+			}
+		}
+		let state = h.state();
+		let err = h.pop_error();
+		let loaded = track.num_sounds();
+		if !released_by_itself {
+			fails.push(format!(
+				"the decoder reached the end of the data but the decoder thread did not end (file not released within 3 s of play; {spin} reads at the end of the data in 50 ms{})",
+				if spin > 1000 { ": it busy-spins" } else { "" }
+			));
+		}
+		if state != PlaybackState::Stopped {
+			fails.push(format!("after {played} frames of callbacks the sound is not Stopped (state code {}; pop_error {})", state_code(state), if err.is_some() { "Some" } else { "None" }));
+		}
+		if truncated && stopped_cb.map_or(false, |c| c > 1) {
+			fails.push(format!("the decoder had failed before the first callback, but the sound became Stopped only in callback {:?}", stopped_cb));
+		}
+		if truncated && err.is_none() {
+			fails.push("the decode error (data ended before the announced length) cannot be popped from the handle".into());
+		}
+		if !truncated && err.is_some() {
+			fails.push("an intact file was played to its end and the handle reports a decode error".into());
+		}
+		if state == PlaybackState::Stopped && loaded != 0 {
+			fails.push("the sound is Stopped and two more callbacks have run, but it still occupies a slot of its track".into());
+		}
+		if audio_after_stop {
+			fails.push("audio after the sound became Stopped".into());
+		}
+		// whatever happened: stopping the sound and discarding the manager must end the thread
+		h.stop(tween(0));
+		mgr.backend_mut().callback_stereo(cb);
+		mgr.backend_mut().callback_stereo(cb);
+		drop(h);
+		drop(track);
+		drop(mgr);
+		if !wait_released(Duration::from_secs(if released_by_itself { 3 } else { 1 })) {
+			fails.push("the sound was stopped and the manager dropped, but the decoder thread did not end (file not released)".into());
+		}
+		(fails, false)
+	});
+	st.kill.store(true, SeqCst);
+	match r {
+		Outcome::Ok((fails, _)) => {
+			for f in fails {
+				s.fail(desc.clone(), f, None);
+			}
+		}
+		_ => s.fail(desc, "panic while streaming the file".into(), None),
+	}
+}
+
+/// Fixed corpus, run on every run whatever the seed.
+fn truncated_file_corpus(s: &mut Session) {
+	for (promised, present) in [(4000usize, 1500usize), (4000, 1152), (4000, 0), (1200, 700), (3000, 2999), (1500, 1500), (100, 100)] {
+		truncated_file(s, promised, present, 128);
 	}
 }
 
